@@ -350,3 +350,97 @@ class ModuleState:
                 go()
         else:
             go()
+
+
+class GlobalState:
+    """Snapshot of the process-global mutable state of all loaded rtflite modules: module-level dict/list/set objects,
+    class-level containers, container attributes of module-level singleton instances, and functools caches.
+    reset() is called at the start of every explored path (generated prop/twin), so state written on one path - for
+    example by a memo that a change introduced - cannot leak into the next one: a counterexample then depends on the
+    harness arguments only and replays in a fresh interpreter.  History dependence itself is decided by the explicit
+    history obligations (C14, C20-O3, C17-O4, ...), which build their histories inside one path."""
+
+    def __init__(self):
+        import sys
+        self.items = []      # (container object, kind, saved content)
+        self.caches = []
+        seen = set()
+
+        def add(obj):
+            if id(obj) in seen:
+                return
+            if isinstance(obj, dict):
+                seen.add(id(obj))
+                self.items.append((obj, "dict", dict(obj)))
+            elif isinstance(obj, list):
+                seen.add(id(obj))
+                self.items.append((obj, "list", list(obj)))
+            elif isinstance(obj, set):
+                seen.add(id(obj))
+                self.items.append((obj, "set", set(obj)))
+
+        for mname, mod in list(sys.modules.items()):
+            if not mname.startswith("rtflite") or mod is None:
+                continue
+            for name, obj in list(vars(mod).items()):
+                if name.startswith("__"):
+                    continue
+                add(obj)
+                if callable(obj) and hasattr(obj, "cache_clear"):
+                    self.caches.append(obj)
+                if isinstance(obj, type) and getattr(obj, "__module__", "").startswith("rtflite"):
+                    for cname, cobj in list(vars(obj).items()):
+                        if cname.startswith("__") or cname.startswith("model_") or cname.startswith("_abc"):
+                            continue
+                        add(cobj)
+                        f = getattr(cobj, "__func__", cobj)
+                        if callable(f) and hasattr(f, "cache_clear"):
+                            self.caches.append(f)
+                elif hasattr(obj, "__dict__") and type(obj).__module__.startswith("rtflite") and not isinstance(obj, type):
+                    for aname, aobj in list(vars(obj).items()):
+                        add(aobj)
+
+    def reset(self):
+        def go():
+            for obj, kind, content in self.items:
+                if kind == "dict":
+                    if obj != content:
+                        obj.clear()
+                        obj.update(content)
+                elif kind == "list":
+                    if obj != content:
+                        obj[:] = content
+                else:
+                    if obj != content:
+                        obj.clear()
+                        obj.update(content)
+            for f in self.caches:
+                try:
+                    f.cache_clear()
+                except Exception:  # noqa: BLE001
+                    pass
+            # caches added after the snapshot (a change may create them lazily) are found again on every reset
+            import sys
+            for mname, mod in list(sys.modules.items()):
+                if mname.startswith("rtflite") and mod is not None:
+                    for name, obj in list(vars(mod).items()):
+                        if callable(obj) and hasattr(obj, "cache_clear") and obj not in self.caches:
+                            self.caches.append(obj)
+                            obj.cache_clear()
+        if _NoTracing is not None:
+            with _NoTracing():
+                go()
+        else:
+            go()
+
+
+_GLOBAL_STATE = None
+
+
+def reset_global_state():
+    """called at the start of every explored path"""
+    global _GLOBAL_STATE
+    if _GLOBAL_STATE is None:
+        _GLOBAL_STATE = GlobalState()
+        return
+    _GLOBAL_STATE.reset()
